@@ -1,5 +1,6 @@
 import FiberModel.C07.Total
 import FiberModel.C07.MatcherTotal
+import FiberModel.C07.MatcherEq
 import FiberModel.C07.Accounted
 import FiberModel.C12.Props
 /-
